@@ -20,11 +20,21 @@ class M2(State):
     items: tuple[int, ...] = ()
 
 
+class M3(State):               # a metric class with its own truthiness (falsy while `ok` is False)
+    v: int = 0
+    ok: bool = True
+
+    def __bool__(self):
+        return self.ok
+
+
 def m_replace(a, b):
     return b
 
 
 def m_sum(a, b):
+    if isinstance(a, M3):
+        return M3(v=a.v + b.v, ok=a.ok and b.ok)
     return M1(v=a.v + b.v) if isinstance(a, M1) else M2(items=a.items + b.items)
 
 
@@ -45,7 +55,8 @@ def run_program(rng):
     counter = [0]
 
     def record(sid):
-        metric = M1(v=rng.randint(1, 9)) if rng.random() < 0.5 else M2(items=(rng.randint(1, 9),))
+        metric = rng.choice([lambda: M1(v=rng.randint(1, 9)), lambda: M2(items=(rng.randint(1, 9),)),
+                             lambda: M3(v=rng.randint(1, 9), ok=rng.random() < 0.5)])()
         merge = rng.choice(MERGES)
         cur = model[sid].get(type(metric))
         try:
@@ -60,7 +71,7 @@ def run_program(rng):
 
     def check(sid, where):
         m = MetricsContext._context.get()
-        for T in (M1, M2):
+        for T in (M1, M2, M3):
             got, want = m.read(T), model[sid].get(T)
             if got != want:
                 problems.append(f"{where}: scope s{sid} holds {got} for {T.__name__}, left fold of its records gives {want}")
@@ -86,8 +97,65 @@ def run_program(rng):
     return problems
 
 
+def run_concurrent():
+    """Spawned tasks record into the scope they were spawned in - also after the scope's body has ended
+    (the scope stays open until its task group has been drained) - and into scopes they open themselves."""
+    problems = []
+
+    async def prog(order):
+        seen = {}
+
+        def completion(metrics):
+            seen["own"] = (metrics.read(M1), metrics.read(M2))
+            seen["merged"] = {type(x): x for x in metrics.metrics(merge=lambda a, b: b if not a else m_sum(a, b))}
+        gate, started, body_ended = asyncio.Event(), asyncio.Event(), asyncio.Event()
+
+        async def worker(tag):
+            try:
+                ctx.record(M2(items=(tag,)), merge=m_sum)
+                started.set()
+                await gate.wait()
+                ctx.record(M2(items=(tag + 1,)), merge=m_sum)
+                with ctx.scope("nested"):
+                    ctx.record(M1(v=8), merge=m_sum)
+                ctx.record(M1(v=4), merge=m_sum)
+            except Exception as e:  # noqa
+                problems.append(f"recording in a spawned task raised {e!r}")
+
+        async def opener():
+            await started.wait()
+            if order == "after-body":
+                await body_ended.wait()
+            gate.set()
+        t = asyncio.create_task(opener())
+        async with ctx.scope("root", completion=completion):
+            ctx.record(M1(v=1), merge=m_sum)
+            ctx.record(M2(items=(0,)), merge=m_sum)
+            ctx.spawn(worker, 10)
+            await started.wait()
+            if order == "before-body-end":
+                await gate.wait()
+                await asyncio.sleep(0)
+            body_ended.set()
+        await t
+        for _ in range(5):
+            await asyncio.sleep(0)
+        if "own" not in seen:
+            problems.append(f"[{order}] the root scope never completed")
+            return
+        if seen["own"] != (M1(v=5), M2(items=(0, 10, 11))):
+            problems.append(f"[{order}] records of a task spawned in the scope: the scope holds {seen['own']}, "
+                            f"expected (M1(v=5), M2(items=(0, 10, 11)))")
+        if seen["merged"].get(M1) != M1(v=13):
+            problems.append(f"[{order}] merged view gives {seen['merged'].get(M1)} for M1, expected M1(v=13)")
+    for order in ("before-body-end", "after-body"):
+        asyncio.run(asyncio.wait_for(prog(order), 5))
+    return problems
+
+
 def main():
     sys.stdin.read()
+
     seed = int(os.environ.get("VERIF_SEED", "0") or 0)
     n, p = 0, None
     for k in range(int(os.environ.get("C10_PROGRAMS", "200"))):
@@ -96,6 +164,10 @@ def main():
         if pr:
             p = pr[0]
             break
+    if not p:
+        n += 2
+        pc = run_concurrent()          # (last: asyncio.run leaves the thread without a current event loop)
+        p = pc[0] if pc else None
     if p:
         print(json.dumps(dict(reproduced=True, detail=dict(problem=p, seed=seed, program=n), cases_tried=n), default=str))
     else:
